@@ -3,6 +3,6 @@
 set -e
 B=$(mktemp -d /tmp/vp_baseline_XXXX)
 trap 'rm -rf "$B"' EXIT
-cmake -S /repo -B "$B" -G Ninja -DCMAKE_BUILD_TYPE=RelWithDebInfo -DTBOX_ENABLE_TEST=ON -DCMAKE_ENABLE_TEST=ON -DCMAKE_CXX_FLAGS=-Wno-error > "$B/conf.log" 2>&1
-cmake --build "$B" -j"$(nproc)" > "$B/build.log" 2>&1
+cmake -S /repo -B "$B" -G Ninja -DCMAKE_BUILD_TYPE=RelWithDebInfo -DTBOX_ENABLE_TEST=ON -DCMAKE_ENABLE_TEST=ON "-DCMAKE_CXX_FLAGS=-Wno-error -Wno-error=use-after-free" > "$B/conf.log" 2>&1
+cmake --build "$B" -j"$(nproc)" > "$B/build.log" 2>&1 || { tail -20 "$B/build.log"; exit 1; }
 ctest --test-dir "$B" -j8 --timeout 900 --output-junit "$B/junit.xml" || true
